@@ -127,6 +127,17 @@ func newVeFakeCluster(name string, count int32) *veFakeCluster {
 				info.Set(nf, protoreflect.ValueOfString(strings.TrimPrefix(veGetString(in, "namespace"), "-")))
 			}
 		}
+		// ListNamespacesResponse-like: a fixed upstream list of namespaces
+		if fd := md.Output().Fields().ByName("namespaces"); fd != nil && fd.IsList() && fd.Message() != nil {
+			if inf := fd.Message().Fields().ByName("namespace_info"); inf != nil && inf.Message() != nil {
+				l := out.Mutable(fd).List()
+				for _, n := range []string{"loc", "other", "loc2", "zzz", "loc"} {
+					el := l.NewElement().Message()
+					el.Mutable(inf).Message().Set(inf.Message().Fields().ByName("name"), protoreflect.ValueOfString(n))
+					l.Append(protoreflect.ValueOfMessage(el))
+				}
+			}
+		}
 		return stream.SendMsg(out)
 	}))
 	var err error
@@ -391,6 +402,15 @@ func TestVerifE2E(t *testing.T) {
 					resp = veGetString(out, "namespace")
 					if fd := md.Output().Fields().ByName("history_shard_count"); fd != nil {
 						resp = fmt.Sprintf("shards=%d", out.Get(fd).Int())
+					}
+					if fd := md.Output().Fields().ByName("namespaces"); fd != nil && fd.IsList() && fd.Message() != nil {
+						if inf := fd.Message().Fields().ByName("namespace_info"); inf != nil {
+							var names []string
+							for i := 0; i < out.Get(fd).List().Len(); i++ {
+								names = append(names, veGetString(out.Get(fd).List().Get(i).Message().Get(inf).Message(), "name"))
+							}
+							resp = "list:" + strings.Join(names, ",")
+						}
 					}
 					if fd := md.Output().Fields().ByName("namespace_info"); fd != nil && fd.Message() != nil && out.Has(fd) {
 						resp = "info:" + veGetString(out.Get(fd).Message(), "name")
